@@ -356,7 +356,11 @@ func c07Scan(p *chk.Prog, r *chk.Report) {
 				}
 			}
 			// cursor over the cidr parameter
-			if len(g.FindPat("ipaddr.NewCursor([]ipaddr.Prefix{*ipaddr.NewPrefix(C)})", chk.H("C", isParam(f, "cidr")))) != 1 {
+			// ... built from the network itself or from a copy of it (address and mask of the same network)
+			cidrP := isParam(f, "cidr")
+			nCur := len(g.FindPat("ipaddr.NewCursor([]ipaddr.Prefix{*ipaddr.NewPrefix(C)})", chk.H("C", cidrP))) +
+				len(g.FindPat("ipaddr.NewCursor([]ipaddr.Prefix{*ipaddr.NewPrefix(&net.IPNet{IP: C.IP, Mask: C2.Mask})})", chk.H("C", cidrP), chk.H("C2", cidrP)))
+			if nCur != 1 {
 				okk, why = false, "the cursor does not cover the CIDR given"
 			}
 		}
